@@ -930,7 +930,68 @@ func (tb *TB) FCmp(k Kind, a, b *Term) *Term {
 			return tb.Bool(x == y)
 		}
 	}
+	// interval folding for floats derived from bounded unsigned integers
+	// (fromU(x), fromU(x)*c, fromU(x)/c with c > 0): the float of an integer below
+	// 2^53 is exact and the operations are monotone, so disjoint ranges decide
+	// the comparison without a floating-point query.
+	if !tb.FPExact {
+		if alo, ahi, ok := floatRange(a); ok {
+			if blo, bhi, ok2 := floatRange(b); ok2 {
+				switch k {
+				case KFLt:
+					if ahi < blo {
+						return tb.True
+					}
+					if alo >= bhi {
+						return tb.False
+					}
+				case KFLe:
+					if ahi <= blo {
+						return tb.True
+					}
+					if alo > bhi {
+						return tb.False
+					}
+				case KFEq:
+					if ahi < blo || bhi < alo {
+						return tb.False
+					}
+				}
+			}
+		}
+	}
 	return tb.boolOp(k, a, b)
+}
+
+// floatRange: a conservative [lo,hi] for constants and for fromU(x) scaled or
+// divided by a positive constant, x of width <= 32 (slack of one part in 2^40
+// covers the rounding of the single multiplication/division).
+func floatRange(t *Term) (float64, float64, bool) {
+	if t.IsConst() {
+		f := t.FVal()
+		if f != f {
+			return 0, 0, false
+		}
+		return f, f, true
+	}
+	if t.K == KFFromU && t.A.Hi < 1<<53 {
+		return float64(t.A.Lo), float64(t.A.Hi), true
+	}
+	if (t.K == KFMul || t.K == KFDiv) && t.A.K == KFFromU && t.A.A.Hi < 1<<53 && t.B.IsConst() {
+		c := t.B.FVal()
+		if !(c > 0) || c > 1e12 || c < 1e-12 {
+			return 0, 0, false
+		}
+		lo, hi := float64(t.A.A.Lo), float64(t.A.A.Hi)
+		if t.K == KFMul {
+			lo, hi = lo*c, hi*c
+		} else {
+			lo, hi = lo/c, hi/c
+		}
+		const eps = 1.0 / (1 << 40)
+		return lo * (1 - eps), hi * (1 + eps), true
+	}
+	return 0, 0, false
 }
 
 // FToInt converts float64 to an integer of width w.
@@ -982,8 +1043,14 @@ func (tb *TB) fpSummary(a *Term, w uint8) *Term {
 	}
 	// fromU(x)*1.5
 	if a.K == KFMul && a.A.K == KFFromU && a.A.A.W <= 32 && a.B.IsConst() && a.B.FVal() == 1.5 {
-		x := tb.ZExt(a.A.A, 64)
 		tb.LemmaUse["L-mul1.5"]++
+		if src := a.A.A; src.Hi <= mask(w)/2 {
+			// no wrap possible at the result width: stay at that width (keeps
+			// the term linear, without zero-extension and truncation)
+			xs := tb.ZExt(src, w) // (truncates when src is wider; nothing is lost: src.Hi fits)
+			return tb.Add(xs, tb.UDiv(xs, tb.Const(w, 2)))
+		}
+		x := tb.ZExt(a.A.A, 64)
 		r := tb.Add(x, tb.UDiv(x, tb.Const(64, 2)))
 		if w < 64 {
 			return tb.Trunc(r, w)
